@@ -67,7 +67,8 @@ func (g *generatorContext) parseType(t reflect.Type) (_ node, returnedError erro
 		return n, nil
 	}
 	if t.Implements(parseableType) {
-		return &parseable{t.Elem()}, nil
+		// Parse() has a value receiver; t is never a pointer here (see indirectType above).
+		return &parseable{t}, nil
 	}
 	if reflect.PtrTo(t).Implements(parseableType) {
 		return &parseable{t}, nil
